@@ -588,28 +588,44 @@ def _top_calls(e):
     return e[:cuts[k][0]].strip(), [(n, a) for (_, n, a, _) in cuts[k:]]
 
 
-def pipeline(e, hit=None, ctr=None, opts=None):
-    """R31: an iterator pipeline (`.iter()`, `(a..b).map(C)`, `.map(C)`, `.chain(P)`, `.filter(C)`, `std::iter::once(x)`, `std::iter::empty()`, `Box::new(P)`) is instantiated at Vec:
-    each adapter becomes one `let __pK = helper(..);` with the adapter's std contract (prelude/std_helpers.rs), in evaluation order; the closures are the source text.
-    Anything else is outside the rule (LostAnchor).  Returns a block expression."""
-    ctr = ctr if ctr is not None else [0]
+def pipeline(e, hit=None, ctr=None, opts=None, flat_into=None):
+    """R31: an iterator pipeline (`.iter()`, `(a..b).map(C)`, `.map(C)`, `.chain(P)`, `.filter(C)`, `.cloned()`, `.flat_map(C)`, `std::iter::once(x)`, `std::iter::empty()`, `Box::new(P)`, a final
+    `.collect()` named by the sidecar) is instantiated at Vec: each adapter becomes one `let __<adapter><k> = helper(..);` with the adapter's std contract (prelude/std_helpers.rs), in evaluation
+    order; the closures are the source text.  Anything else is outside the rule (LostAnchor).  Returns a block expression, or - for `let NAME = P;` (flat_into=NAME) - the flat statement list
+    ending in `let NAME = <last step>;`, so that the steps stay in scope for the proof text."""
+    ctr = ctr if ctr is not None else {}
     stmts, res = _pipe(e, hit, ctr, opts)
+    if flat_into is not None:
+        return ' '.join(stmts) + (' ' if stmts else '') + 'let %s = %s;' % (flat_into, res)
     if not stmts:
         return res
     return '{ ' + ' '.join(stmts) + ' ' + res + ' }'
 
 
+PIPE_MARKERS = ('iter', 'into_iter', 'chain', 'cloned', 'copied', 'flat_map')
+
+
+def is_pipeline(e, bound=()):
+    """does the expression start an iterator pipeline (conservatively: an unambiguous adapter, a range / once / empty source, or a local already bound to a pipeline)?"""
+    e = e.strip()
+    if re.match(r'^(?:std::iter::|iter::)?(once\s*\(|empty\s*\(\s*\)$)', e):
+        return True
+    base, calls = _top_calls(e)
+    if not calls:
+        return False
+    names = [n for n, _ in calls]
+    return any(n in PIPE_MARKERS for n in names) or bool(re.match(r'^\(\s*.+\.\..+\)$', base)) or base in bound
+
+
 def _pipe(e, hit, ctr, opts=None):
     opts = opts or {}
-    def h():
+
+    def bind(kind, expr, stmts):
+        ctr[kind] = ctr.get(kind, 0) + 1
+        nm = '__%s%d' % (kind, ctr[kind])
+        stmts.append('let %s = %s;' % (nm, expr))
         if hit:
             hit('R31')
-
-    def bind(expr, stmts):
-        ctr[0] += 1
-        nm = '__p%d' % ctr[0]
-        stmts.append('let %s = %s;' % (nm, expr))
-        h()
         return nm
     e = e.strip().rstrip(',').strip()
     m = re.match(r'^Box::new\s*\(', e)
@@ -618,9 +634,9 @@ def _pipe(e, hit, ctr, opts=None):
     stmts = []
     m = re.match(r'^(?:std::iter::|iter::)?once\s*\(', e)
     if m and match_close(e, m.end() - 1, '(', ')') == len(e) - 1:
-        return stmts, bind('vec_once(%s)' % e[m.end():-1].strip(), stmts)
+        return stmts, bind('once', 'vec_once(%s)' % e[m.end():-1].strip(), stmts)
     if re.match(r'^(?:std::iter::|iter::)?empty\s*\(\s*\)$', e):
-        return stmts, bind('vec_empty()', stmts)
+        return stmts, bind('empty', 'vec_empty()', stmts)
     base, calls = _top_calls(e)
     if not calls:
         return stmts, base          # an already collected value (a local bound to a pipeline, or a call of a unit whose iterator is instantiated at Vec)
@@ -633,37 +649,78 @@ def _pipe(e, hit, ctr, opts=None):
         if name == 'iter':
             if args.strip():
                 raise LostAnchor('iter() with arguments')
-            cur = bind('vec_refs(&%s)' % cur, stmts)
+            cur = bind('refs', 'vec_refs(&%s)' % cur, stmts)
         elif name == 'into_iter':
             # the typed unit (R22: returns Vec), or the helper the sidecar names for a std collection (e.g. BTreeSet -> btreeset_into_vec)
-            cur = bind(('%s(%s)' % (opts['into_iter'], cur)) if opts.get('into_iter') else ('%s.into_iter()' % cur), stmts)
+            cur = bind('into', ('%s(%s)' % (opts['into_iter'], cur)) if opts.get('into_iter') else ('%s.into_iter()' % cur), stmts)
         elif name in ('cloned', 'copied'):
-            cur = bind('vec_cloned(%s)' % cur, stmts)
+            cur = bind('cloned', 'vec_cloned(%s)' % cur, stmts)
         elif name == 'flat_map':
             # the closure returns an iterator: its body is a pipeline too
             cm = re.match(r'^\|([^|]*)\|\s*(.*)$', clo, re.S)
             if not cm:
                 raise LostAnchor('flat_map argument is not a closure')
             st3, r3 = _pipe(cm.group(2), hit, ctr, opts)
-            cur = bind('vec_flat_map(%s, |%s| { %s %s })' % (cur, cm.group(1), ' '.join(st3), r3), stmts)
+            cur = bind('flat', 'vec_flat_map(%s, |%s| { %s %s })' % (cur, cm.group(1), ' '.join(st3), r3), stmts)
         elif name == 'collect':
             if not opts.get('collect'):
                 raise LostAnchor('collect() without a target named by the sidecar')
-            cur = bind('%s(%s)' % (opts['collect'], cur), stmts)
+            cur = bind('coll', '%s(%s)' % (opts['collect'], cur), stmts)
         elif name == 'map':
             rm = re.match(r'^\(\s*(.+?)\s*\.\.\s*(.+?)\s*\)$', cur) if first else None
             if rm:
-                cur = bind('range_map_collect(%s, %s, %s)' % (rm.group(1), rm.group(2), clo), stmts)
+                cur = bind('map', 'range_map_collect(%s, %s, %s)' % (rm.group(1), rm.group(2), clo), stmts)
             else:
-                cur = bind('vec_map_collect(%s, %s)' % (cur, clo), stmts)
+                cur = bind('map', 'vec_map_collect(%s, %s)' % (cur, clo), stmts)
         elif name == 'chain':
             st2, r2 = _pipe(args, hit, ctr, opts)
             stmts.extend(st2)
-            cur = bind('vec_chain(%s, %s)' % (cur, r2), stmts)
+            cur = bind('chain', 'vec_chain(%s, %s)' % (cur, r2), stmts)
         elif name == 'filter':
-            cur = bind('vec_filter(%s, %s)' % (cur, clo), stmts)
+            cur = bind('filter', 'vec_filter(%s, %s)' % (cur, clo), stmts)
         first = False
     return stmts, cur
+
+
+def let_pipelines(body, hit, ctr, opts):
+    """R31 for `let NAME = <pipeline>;` statements: found by scanning, converted to flat statement lists (the steps stay in scope)"""
+    bound = []
+    out = []
+    i = 0
+    rx = re.compile(r'\blet\s+(?:mut\s+)?([a-z_]\w*)\s*=\s*')
+    while True:
+        m = rx.search(body, i)
+        if not m:
+            out.append(body[i:])
+            break
+        # scan to the `;` that ends the statement
+        d = 0
+        j = m.end()
+        while j < len(body):
+            ch = body[j]
+            if ch in '([{':
+                d += 1
+            elif ch in ')]}':
+                d -= 1
+                if d < 0:
+                    break
+            elif ch == ';' and d == 0:
+                break
+            j += 1
+        if j >= len(body) or body[j] != ';':
+            out.append(body[i:m.end()])
+            i = m.end()
+            continue
+        rhs = body[m.end():j]
+        if is_pipeline(rhs, bound):
+            out.append(body[i:m.start()])
+            out.append(pipeline(rhs, hit, ctr, opts, flat_into=m.group(1)))
+            bound.append(m.group(1))
+            i = j + 1
+        else:
+            out.append(body[i:j + 1])
+            i = j + 1
+    return ''.join(out)
 
 
 # --------------------------------------------------------------------------
@@ -763,7 +820,8 @@ class Unit:
                 raise LostAnchor('pattern %r occurs %d times in %s (contract written for %d)' % (rx, n, self.name, cnt))
         if self.pipes is not None:
             # R31: iterator pipelines instantiated at Vec
-            pctr = [0]
+            pctr = {}
+            body = let_pipelines(body, rules.hit, pctr, self.pipe_opts)
             for rx in self.pipes:
                 ms = list(re.finditer(rx, body))
                 if len(ms) != 1:
